@@ -53,6 +53,13 @@ def setup(ctx):
         if md.lstrip("\n").startswith((":", "---")) or "\t" in md.split("\n")[0][:1]:
             continue
         SPEC.append(md)
+    # files for bodies that are themselves includes: with YAML front matter (dropped by the include), without, and one that includes the first
+    with open(os.path.join(TMP, "fmfile.md"), "w", encoding="utf8") as f:
+        f.write("---\norphan: true\ntitle: from the front matter\n---\n\nincluded *text* of fmfile\n\n- item of fmfile\n")
+    with open(os.path.join(TMP, "plainfile.md"), "w", encoding="utf8") as f:
+        f.write("included *text* of plainfile\n\n> quote of plainfile\n")
+    with open(os.path.join(TMP, "outerfile.md"), "w", encoding="utf8") as f:
+        f.write("---\nk: v\n---\nouter text\n\n```{include} fmfile.md\n```\n")
     mon.start_reach(ctx)
 
 
@@ -421,6 +428,10 @@ def eval_repeat(ctx, case):
             ctx.count("repeat_equal_and_resolved")
 
 
+INCLUDE_BODIES = [["```{include} fmfile.md", "```"], ["~~~{include} fmfile.md", "~~~"], ["before", "", "```{include} fmfile.md", "```", "", "after"], ["```{include} plainfile.md", "```"], ["```{include} outerfile.md", "```"],
+                  ["```{include} fmfile.md", ":start-line: 0", "```"], ["- item", "", "  ```{include} fmfile.md", "  ```"], ["> ```{include} fmfile.md", "> ```"]]
+
+
 def eval_case(ctx, case):
     if case["kind"] == "repeat":
         eval_repeat(ctx, case)
@@ -488,6 +499,26 @@ def run_shard(ctx):
         eval_case(ctx, case)
         ctx.case(repr(case), True)
         ctx.count("firstline_cases")
+    # bodies that are includes themselves (of files with / without YAML front matter, nested), in every wrapper
+    k = 0
+    for body in INCLUDE_BODIES:
+        for wrapper in ("directive", "directive-colon", "directive-deep", "include", "subst_block"):
+            k += 1
+            if k % ctx.nshards != ctx.shard:
+                continue
+            if wrapper.startswith("directive"):
+                ly = rand_layer(R)
+                ly[1] = ":" if wrapper == "directive-colon" else "`"
+                ly[6] = False
+                case = {"kind": "directive", "layers": ([rand_layer(R), rand_layer(R)] if wrapper == "directive-deep" else []) + [ly], "outer": [], "src": "lines", "lines": body}
+                for l_ in case["layers"]:
+                    l_[6] = False
+            else:
+                case = {"kind": wrapper, "src": "lines", "lines": body, "final_nl": True}
+            eval_case(ctx, case)
+            ctx.case(("include-body", repr(body), wrapper), True)
+            ctx.count("include_bodies_compared")
+    ctx.subrun("include_bodies_in_every_wrapper", exhaustive=True, bodies=len(INCLUDE_BODIES))
     for i in range(60 if quick else 3000):
         case = {"kind": "repeat", "uses": R.choice([["refdef"], ["footnote"], ["target"], ["refdef", "footnote"], ["refdef", "footnote", "target"]]), "wrapper": R.choice(["directive", "directive", "include", "subst"]), "layer": rand_layer(R)}
         eval_case(ctx, case)
